@@ -33,6 +33,12 @@ type TransSpec struct {
 	Globals    []string // package-level variables treated as explicit state: read -> extra parameter, written -> extra result
 	WrapSigned bool     // int8/16/32/64 wrap around (swrap N) instead of being unbounded; `int` stays unbounded
 	Frags      []FragSpec
+	// [ext:T08] (gen/trans_ext08.go) -------------------------------------------------------------------------------
+	Stubs         map[string]string // import path -> declarations (Go source) of a foreign package, as far as the code uses it
+	ModuleImports bool              // packages of the translated module are type-checked from their source in the tree
+	Foreign       []ForeignSpec     // functions / methods of other packages: fields of the generated `Record Foreign`
+	OutParams     map[string][]int  // function -> slice parameters that are output buffers (returned in front of the results)
+	ErrCodes      []ErrCode         // errors.New / fmt.Errorf texts -> error codes
 }
 
 type unsupported struct{ msg string }
@@ -48,6 +54,7 @@ const (
 	kStruct             // a translated struct (or a pointer to it) -> its Record
 	kPlace              // [seq] h := &s[i], s a slice of translated structs -> the index (trans_seq.go)
 	kErr                // [ext:T20] error -> Z: nil = 0, a sentinel `var ErrX = errors.New(..)` = a positive code
+	kOpaque             // [ext:T08] a value of a foreign type: `<type> ext'`, a field of the Record Foreign
 )
 
 type gtype struct {
@@ -59,6 +66,8 @@ type gtype struct {
 	str   bool        // [ext:T20] kSlice that is a Go string (immutable bytes)
 	arr   int64       // [ext:T20] kSlice that is a Go array [arr]T (isArr)
 	isArr bool
+	nest  bool   // [ext:T08] kSlice whose elements are slices of integers: list (list Z)
+	opq   string // [ext:T08] kOpaque: the Record field that is its type
 }
 
 func (g gtype) coq() string {
@@ -69,9 +78,14 @@ func (g gtype) coq() string {
 		if g.elem != nil { // [seq]
 			return "list " + g.elem.name
 		}
+		if g.nest { // [ext:T08]
+			return "list (list Z)"
+		}
 		return "list Z"
 	case kStruct:
 		return g.st.name
+	case kOpaque: // [ext:T08]
+		return "(" + g.opq + " ext')"
 	}
 	return "Z"
 }
@@ -80,6 +94,9 @@ func (g gtype) zero() string {
 	case kBool:
 		return "false"
 	case kSlice:
+		if g.isArr && g.nest { // [ext:T08]
+			return fmt.Sprintf("(repeat [] %d)", g.arr)
+		}
 		if g.isArr { // [ext:T20]
 			return fmt.Sprintf("(repeat 0 %d)", g.arr)
 		}
@@ -114,6 +131,9 @@ type funcInfo struct {
 	greads, gwrites map[*globalInfo]bool // package-level state read / written (directly or through calls)
 	ignoredRecv     bool                 // a receiver of an untranslatable type that the body never mentions
 	frag            *fragInfo            // a loop fragment of a function instead of a whole function
+	// [ext:T08]
+	foreign bool  // calls a foreign function (directly or through calls): takes `ext' : Foreign`
+	outs    []int // slice parameters that are output buffers
 }
 
 type Translator struct {
@@ -127,12 +147,16 @@ type Translator struct {
 	global  map[string]bool // Coq names that locals must not shadow
 	seq     *seqState       // [seq] sequential reading of atomics, places, timed tails (trans_seq.go)
 	ext20                   // [ext:T20] state of gen/trans_ext20.go
+	ext08                   // [ext:T08] state of gen/trans_ext08.go
 }
 
 type stubImporter struct{}
 
 func (stubImporter) Import(path string) (*types.Package, error) {
 	if p := seqStubPackage(path); p != nil { // [seq] sync/atomic, runtime, time: typed stubs
+		return p, nil
+	}
+	if p := import08(path); p != nil { // [ext:T08] TransSpec.Stubs, packages of the translated module
 		return p, nil
 	}
 	p := types.NewPackage(path, filepath.Base(path))
@@ -168,6 +192,9 @@ func nodeDesc(n ast.Node) string { return strings.TrimPrefix(fmt.Sprintf("%T", n
 func (t *Translator) typeOf(ty types.Type, n ast.Node) gtype {
 	if ty == nil {
 		t.fail(n, "expression without a type")
+	}
+	if g, ok := t.type08(ty, n); ok { // [ext:T08] opaque foreign types, [][]byte, byte-like type parameters
+		return g
 	}
 	switch x := ty.(type) {
 	case *types.Basic:
@@ -281,6 +308,7 @@ func Translate(repo string, spec TransSpec) (out string, err error) {
 	}()
 	t.info = &types.Info{Types: map[ast.Expr]types.TypeAndValue{}, Defs: map[*ast.Ident]types.Object{},
 		Uses: map[*ast.Ident]types.Object{}, Selections: map[*ast.SelectorExpr]*types.Selection{}}
+	defer begin08(repo, spec)() // [ext:T08] import context (stubs of foreign packages)
 	conf := types.Config{Importer: stubImporter{}, Error: func(error) {}}
 	tpkg, _ := conf.Check(spec.Dir, p.Fset, p.Files, t.info)
 	if tpkg == nil {
@@ -291,6 +319,7 @@ func Translate(repo string, spec TransSpec) (out string, err error) {
 	}
 	t.seqInit(spec, tpkg, p.Files) // [seq]
 	t.setup20(p, tpkg, spec)       // [ext:T20]
+	t.setup08(spec)                // [ext:T08]
 	for _, f := range p.Files {
 		for _, d := range f.Decls {
 			if fd, ok := d.(*ast.FuncDecl); ok && fd.Body != nil {
@@ -374,6 +403,7 @@ func Translate(repo string, spec TransSpec) (out string, err error) {
 		fmt.Fprintf(&fb, "#[export] Hint Unfold %s : go2v.\n", fi.name)
 	}
 	sb.WriteString(t.consts20())
+	sb.WriteString(t.record08()) // [ext:T08] Record Foreign
 	sb.WriteString(fb.String())
 	return sb.String(), nil
 }
@@ -456,6 +486,7 @@ func (t *Translator) addFunc(key string) *funcInfo {
 		}
 		fi.results = append(fi.results, g)
 	}
+	t.outs08(fi, key, sig) // [ext:T08] output parameters
 	return fi
 }
 
@@ -530,6 +561,7 @@ func (t *Translator) assigned(n ast.Node, set map[types.Object]bool) {
 	}
 	ast.Inspect(n, func(m ast.Node) bool {
 		t.seqAssigned(m, set) // [seq] writes through h := &s[i] and atomic stores
+		t.assigned08(m, set)  // [ext:T08] slice arguments a foreign function writes
 		switch x := m.(type) {
 		case *ast.AssignStmt:
 			for _, l := range x.Lhs {
@@ -630,6 +662,9 @@ func (t *Translator) analyse() {
 				}
 			}
 			if t.globals20(fi) { // [ext:T20]
+				changed = true
+			}
+			if t.foreign08(fi) { // [ext:T08]
 				changed = true
 			}
 		}
